@@ -7,7 +7,7 @@ DEEP_KINDS = ["bare", "bareint", "barequoted", "barewild", "feq", "feqint", "feq
               "fgt", "fge", "flt", "fle", "frange", "fxrange", "fxirange", "fmrange", "flist", "flist3"]
 
 
-ALL_KINDS = DEEP_KINDS + ["barenint", "barefloat", "barere", "feqifloat", "feqempty", "baresame", "feqsame", "fduplist", "fduplist3", "frangesame"]
+ALL_KINDS = DEEP_KINDS + ["barenint", "barefloat", "barere", "feqifloat", "feqempty", "baresame", "feqsame", "fduplist", "fduplist3", "frangesame", "femptyfield", "femptylist"]
 
 
 def common_assumptions(run):
@@ -117,10 +117,24 @@ def check_C06(run):
     trees_pipeline(run, "C06")
 
 
+def deep_malformed_texts():
+    """Constructs that only expr.Validate rejects (a conjunction in a field position or as a range bound, ...) below k operator
+    levels: a guard that stops looking at some depth would let them through."""
+    bad = ["(a b):c", "a:[(b c) TO d]", "(a OR b):>5", "(a b):[1 TO 2]", "a:[1 TO (b OR c)]", "(a b):(c OR d)", "(NOT a):b"]
+    out = []
+    for k in (1, 3, 20, 63, 64, 65, 66, 100, 130, 260, 600):
+        for b in bad:
+            out += ["NOT " * k + b, "-" * 1 + "(" * k + b + ")" * k, "+(" * k + b + ")" * k, "(x:1 AND " * k + b + ")" * k,
+                    "(" + b + " OR y:2" + ")" * 1 if k == 1 else "(y:2 OR " * k + b + ")" * k]
+    return out
+
+
 def check_C10(run):
     common_assumptions(run)
     enum_pipeline(run, "C10", observe=True)
     trees_pipeline(run, "C10")
+    res, _, _ = stage_texts(run, deep_malformed_texts(), observe=True, name="deep_malformed")
+    stage_judge_enum(run, res, "C10", name="judge_deep_malformed")
     # byte level: arbitrary symbol sequences (NUL, invalid UTF-8, quotes ...) through Parse and both renderers
     import lexfam
     if run.tier == "quick":
